@@ -260,11 +260,15 @@ BuildSpine(levels, leaf) ==
 VDepth(rr) ==
     LET r    == [rr EXCEPT !.leaf = rr.leaf] @@ [doc |-> BuildSpine(rr.spine, rr.leaf)]
         segs == Parse(r.q, FALSE).v
-        deep == Nesting(r.doc) > r.limit
+        \* the limit counts from each node the (first) descendant segment is applied to
+        firstDesc == CHOOSE j \in 1..Len(segs) : segs[j].desc /\ \A i \in 1..(j - 1) : ~segs[i].desc
+        inputs == EvalSegs(SubSeq(segs, 1, firstDesc - 1), <<RootNode(r.doc)>>, r.doc, Builtins)
+        deep == \E k \in 1..Len(inputs) : Nesting(inputs[k].v) > r.limit
+        deepest == IF inputs = <<>> THEN 0 ELSE LET S == {Nesting(inputs[k].v) : k \in 1..Len(inputs)} IN CHOOSE x \in S : \A y \in S : y <= x
     IN  IF r.out = "timeout" THEN Rej("C18 traversal did not finish within the time limit", <<>>)
-        ELSE IF deep /\ r.out # "raise" THEN Rej("C18 data nested deeper than the limit did not raise", <<Nesting(r.doc), r.limit>>)
+        ELSE IF deep /\ r.out # "raise" THEN Rej("C18 data nested deeper than the limit did not raise", <<deepest, r.limit>>)
         ELSE IF deep /\ r.cls # "JSONPathRecursionError" THEN Rej("C18 deep data raised something else than JSONPathRecursionError", <<r.cls>>)
-        ELSE IF ~deep /\ r.out # "ok" THEN Rej("C18 data within the limit raised", <<r.cls, Nesting(r.doc), r.limit>>)
+        ELSE IF ~deep /\ r.out # "ok" THEN Rej("C18 data within the limit raised", <<r.cls, deepest, r.limit>>)
         ELSE IF ~deep /\ r.mode = "det" /\ r.locs # LocsOf(Find(segs, r.doc, Builtins)) THEN Rej("C18 result within the limit is not the full result", <<>>)
         ELSE IF ~deep /\ r.mode = "rnd" /\ Len(r.locs) # Len(Find(segs, r.doc, Builtins)) THEN Rej("C18 result within the limit is not the full result", <<>>)
         ELSE Acc
